@@ -82,9 +82,15 @@ impl Stepped {
     }
 }
 
-/// Encodes, for the yield point after a counter increment: (number of handles << 1) | (1 if some handle in
-/// the rotation is currently marked unavailable).
+/// Encodes, for the yield point after a counter increment: (availability bits of workers 0..15 << 16) |
+/// (number of handles << 1) | (1 if some handle in the rotation is currently marked unavailable).
 pub(crate) fn rotation_state(a: &Accept) -> usize {
     let any_false = a.handles.iter().any(|h| !a.avail.get_available(h.idx()));
-    (a.handles.len() << 1) | (any_false as usize)
+    let mut mask = 0usize;
+    for i in 0..16 {
+        if a.avail.get_available(i) {
+            mask |= 1 << i;
+        }
+    }
+    (mask << 16) | (a.handles.len() << 1) | (any_false as usize)
 }
